@@ -17,6 +17,7 @@ import OFV.Proofs.C05SrlAll
 import OFV.Proofs.C05Iop8
 import OFV.Proofs.C05Bksf
 import OFV.Proofs.C05BksfNum
+import OFV.Proofs.C05BksfTwo
 
 namespace OFV.C05
 open OFV OFV.Spec OFV.Model OFV.Model.C05 OFV.Sem OFV.BK OFV.BKT
@@ -627,6 +628,36 @@ theorem bksf_one_body_diagonal (tol : Rat) (htol : tol * tol ≤ 1 / 4) (E : Mod
     GV.coeff (applyOp .qubit t [m]) [x] = if m = x then (if incidentSet E p m % 2 = 1 then 1 else 0) else 0 :=
   oneBody_diag_den tol htol E hE p t ht hok m x
 
+/-- **`_two_body(.., p, q, r, s)`, four distinct indices**, is the operator
+`(1/8 A_pq) A_rs (-1 - B_pB_q + B_pB_r + B_pB_s + B_qB_r + B_qB_s - B_rB_s - B_pB_qB_rB_s)` — every array, all matrix
+elements (exact run; the last sign is the one repaired in the source) -/
+theorem bksf_two_body_four_index_formula (tol : Rat) (htol : tol * tol ≤ 1 / 4) (E : Model.Bksf.Edges) (p q r s : Nat)
+    (hnd : Model.Bksf.nDistinct4 p q r s = 4) (Apq Ars t : Model.Op)
+    (hA1 : Model.Bksf.edgeA tol E p q = some Apq) (hA2 : Model.Bksf.edgeA tol E r s = some Ars)
+    (ht : Model.Bksf.twoBody tol E p q r s = some t) (hok : Model.Bksf.twoBody4Ok tol E p q r s = true) (m x : Nat) :
+    let P := fun (Y : Model.Op) =>
+      GV.coeff (applyOp .qubit (mulOp .qubit (mulOp .qubit (smul Model.Bksf.eighthQ Apq) Ars) Y) [m]) [x]
+    let B := Model.Bksf.edgeB tol E
+    GV.coeff (applyOp .qubit t [m]) [x]
+      = -P Model.Bksf.one - P (mulOp .qubit (B p) (B q)) + P (mulOp .qubit (B p) (B r)) + P (mulOp .qubit (B p) (B s))
+        + P (mulOp .qubit (B q) (B r)) + P (mulOp .qubit (B q) (B s)) - P (mulOp .qubit (B r) (B s))
+        - P (mulOp .qubit (mulOp .qubit (mulOp .qubit (B p) (B q)) (B r)) (B s)) :=
+  twoBody4_den tol htol E p q r s hnd Apq Ars t hA1 hA2 ht hok m x
+
+/-- **`_two_body` with four distinct indices is the double excitation `a†_p a†_q a_r a_s + h.c.` in edge-operator
+form**: on a basis state `m` of the edge qubits it vanishes unless vertices `p, q` are occupied and `r, s` empty, or
+the other way round (occupation = parity of the incident edge qubits), and there it acts as `-A_pq A_rs` — every graph
+without loops, every basis state.  (With the former `+ B_pB_qB_rB_s` this statement is false.) -/
+theorem bksf_two_body_four_index_sound (tol : Rat) (htol : tol * tol ≤ 1 / 4) (E : Model.Bksf.Edges) (hE : NoLoops E)
+    (p q r s : Nat) (hnd : Model.Bksf.nDistinct4 p q r s = 4) (Apq Ars t : Model.Op)
+    (hA1 : Model.Bksf.edgeA tol E p q = some Apq) (hA2 : Model.Bksf.edgeA tol E r s = some Ars)
+    (ht : Model.Bksf.twoBody tol E p q r s = some t) (hok : Model.Bksf.twoBody4Ok tol E p q r s = true) (m x : Nat) :
+    GV.coeff (applyOp .qubit t [m]) [x]
+      = if (occV E p m && occV E q m && !occV E r m && !occV E s m)
+            || (!occV E p m && !occV E q m && occV E r m && occV E s m)
+        then -GV.coeff (applyOp .qubit (mulOp .qubit Apq Ars) [m]) [x] else 0 :=
+  twoBody4_sound tol htol E hE p q r s hnd Apq Ars t hA1 hA2 ht hok m x
+
 /-! ### non-vacuity -/
 
 example : Generated.eqTolerance * Generated.eqTolerance ≤ 1 / 4 := by
@@ -721,6 +752,22 @@ example :
   intro T2 T3
   refine ⟨by decide +kernel, by decide +kernel, by decide +kernel, by decide +kernel, by decide +kernel⟩
 
+/-- hypotheses of `bksf_two_body_four_index_sound` on a concrete graph (the 4-cycle 0-1-2-3 with a pendant vertex 4),
+indices `(1, 0, 3, 2)`: four distinct, both edge operators exist, the exact-regime flag holds, and both branches of the
+statement occur (`m = 1`, the qubit of edge (0,1) set: vertices 0, 1 occupied, 2, 3 empty; `m = 0`: vacuum) -/
+example :
+    let E : Model.Bksf.Edges := [(0, 1), (0, 3), (1, 2), (2, 3), (3, 4)]
+    Model.Bksf.nDistinct4 1 0 3 2 = 4
+    ∧ (Model.Bksf.edgeA Generated.eqTolerance E 1 0).isSome = true
+    ∧ (Model.Bksf.edgeA Generated.eqTolerance E 3 2).isSome = true
+    ∧ (Model.Bksf.twoBody Generated.eqTolerance E 1 0 3 2).isSome = true
+    ∧ Model.Bksf.twoBody4Ok Generated.eqTolerance E 1 0 3 2 = true
+    ∧ (occV E 1 1 && occV E 0 1 && !occV E 3 1 && !occV E 2 1) = true
+    ∧ (occV E 1 0 || occV E 0 0 || occV E 3 0 || occV E 2 0) = false := by
+  intro E
+  refine ⟨by decide +kernel, by decide +kernel, by decide +kernel, by decide +kernel, by decide +kernel,
+    by decide +kernel, by decide +kernel⟩
+
 example : ∀ m ∈ [11, 0, 3, 11, 4], m / 2 < 6 := by decide
 
 /-- the exact-regime hypothesis of `tree_exact` on a concrete operator, `n = 6` (tree ≠ Fenwick there) -/
@@ -733,10 +780,10 @@ example : bkTreeFermionOk Generated.eqTolerance 6
 
 * Bravyi-Kitaev superfast: the edge matrix, `_one_body`, `_two_body`, the assembled `bravyi_kitaev_fast` and
   `number_operator` are modelled (`Model/C05Bksf.lean`) and compared exactly with the library; proved: the edge
-  algebra (`bksf_*_relation`), the edge list is a simple graph, `number_operator` and `_one_body`.  NOT proved: the
-  image formulas of `_two_body` (4 / 3 / 2 distinct indices), that the selection of tensor entries of the main loop
-  adds up to the edge-algebra image of the whole Hamiltonian (FALSE for the pinned source: known findings
-  F05-bksf-four-index-sign — the Model mirrors the code's `+ B_p B_q B_r B_s`, the fermionic identity needs `-` —,
+  algebra (`bksf_*_relation`), the edge list is a simple graph, `number_operator`, `_one_body`, and `_two_body` for
+  four distinct indices (the double excitation).  NOT proved: the image formulas of `_two_body` for 3 / 2 distinct
+  indices, that the selection of tensor entries of the main loop
+  adds up to the edge-algebra image of the whole Hamiltonian (false in general for the pinned source: known findings
   F05-bksf-complex-coefficients, F05-bksf-missing-edge), the fermionic
   identities expressing a†a-monomials by Majorana edge operators, `vacuum_operator` (networkx cycle basis; no Model),
   and the isomorphism of the stabiliser subspace with the even-parity Fock space.
